@@ -1,3 +1,4 @@
+import ast
 import subprocess as sp
 import warnings
 
@@ -52,7 +53,25 @@ def format_code(text, filename):
                 + result.stderr.decode("utf-8")
             )
             return text
-        return result.stdout.decode("utf-8")
+
+        new_text = result.stdout.decode("utf-8")
+
+        try:
+            ast.parse(new_text)
+            valid = bool(new_text.strip()) or not text.strip()
+        except SyntaxError:
+            valid = False
+
+        if not valid:
+            raise_problem(
+                f"""\
+[b]The format_command '{escape(format_command)}' returned no valid python code (exit code 0).[/b]
+The unformatted code is used instead.
+"""
+            )
+            return text
+
+        return new_text
 
     try:
         from black import format_str
